@@ -327,6 +327,14 @@ func Equal(r1, r2 Resource) bool {
 				continue
 			}
 
+			// A nil and an empty slice of bytes are the same value.
+			b1, ok1 := r1.Get(attr1.Name).([]byte)
+			b2, ok2 := r2.Get(attr2.Name).([]byte)
+
+			if ok1 && ok2 && len(b1) == 0 && len(b2) == 0 {
+				continue
+			}
+
 			return false
 		}
 	}
